@@ -69,6 +69,26 @@ CLAIMS = {
         'source/FST/AST form) plus put-back of children that need their parentheses. Line-structure enclosure and atom analysis are covered only by that oracle.',
    note='Trusted: Coq kernel/vm_compute; py2v/gen_prec; hand spec PyGrammar.v (validated vs CPython each run); canonical examples in py/lib/slots.py; CPython ast. No axioms.',
    design='DESIGN.md section 4 C09'),
+ 'C04': dict(
+   technique='Coq proof: text-splice locality (K1) + hand transcription of leading_trivia with bounds / trivia-only / option theorems; vm_compute correspondence; token-stream window oracle over edit sequences',
+   text='Proved (closed): every text change is one local splice (lines above/below identical and in order, start-line prefix and end-line suffix kept); for the transcribed '
+        'leading_trivia the region handed to an edit lies between the previous code and the element, consists only of blank/continuation/comment lines (comment lines for block, '
+        'blank lines for the space part), is empty for comments=none and holds at most n blank lines for space=n. Partial: trailing_trivia and the handlers\' choice of '
+        'region are not modelled - decided by the oracle: after every successful op of random edit sequences the token streams (comments included) before/after must agree '
+        'outside the element window (element extent + adjacent separators/introducers/parentheses + comments in the surrounding gaps), no comment may be duplicated, '
+        'put_line_comment may change only the addressed comment; the theorem predicates are also evaluated on the real leading_trivia outputs.',
+   note='Trusted: Coq kernel/vm_compute; hand models Text.v and Trivia.v tied by correspondence; tokenize as token reference; container separators and grouping parentheses are '
+        'ignored globally by the oracle (they may legitimately change anywhere in the edited container). No axioms.',
+   design='DESIGN.md section 4 C04'),
+ 'C02': dict(
+   technique='Coq proof: no stale position (walk=map), cache-coherence state machine for position-determined answers, view healing; query-battery oracle against a fresh tree under two query schedules',
+   text='Proved (closed): after any offset pass no node keeps a stale position (K2); in the cache model (visited nodes moved and flushed, others untouched) coherence is '
+        'preserved by every interleaving of queries and passes, positions are independent of the queries made, hence answers after any history equal those of a never-queried '
+        'tree; views heal after external length changes. Partial: text-reading caches (bloc, pars), the a/f/parent/pfield link structure and object identity are decided by the '
+        'oracle: after every successful edit of random scripts, 37 queries on sampled nodes are compared with a fresh FST(root.src), with and without 30 cache-warming queries '
+        'before each edit, and both schedules must end in the identical source and tree.',
+   note='Trusted: Coq kernel/vm_compute; hand model Cache.v (tied to the real cache/flush set by correspondence); a fresh FST(root.src) as reference observer. No axioms.',
+   design='DESIGN.md section 4 C02'),
 }
 
 checks = []
